@@ -1,5 +1,6 @@
 PROP = {
-    "groups": ["guards", "hostile"],
+    "groups": ["guards", "hostile", "scanners"],
+    "gen": ["guards", "Skel_guards.v"],
     "timeout": 600,
     "rule": "guards: the real pipelineRecvBinaryData / recvData / recvPrefixHash / recvConfig / pipelineRecvCurrentAck / "
             "pipelineRecvFinalAck / createProgressBar+newTextProgressBar / recvInteger / parseTrzszVersion / unmarshalTargetFile "
@@ -14,7 +15,16 @@ PROP = {
             "sequences, binary payloads; lines missing, duplicated, cut, retyped, without colon, 1 MB long; FAIL / EXIT injected; trigger "
             "version / port / id - and each mutant is replayed against the real trz / tsz (ulimit -v 4 GiB) or the real client in a child "
             "process (RLIMIT_AS 4 GiB); oracle: no crash text, no recovered panic, ends by itself or at the user's interrupt, peak RSS < 600 MB, "
-            "client forwards a probe both ways afterwards; every replay is non-trivial; distinct = distinct scenario+message+field+value",
+            "client forwards a probe both ways afterwards; every replay is non-trivial; distinct = distinct scenario+message+field+value; "
+            "negative SIZE / NUM / name-record size followed by the recorded data are always replayed against the receiving client with a "
+            "progress display for protocols 2,3,4 x base64/binary. "
+            "scanners: detectOSC52, detectTrzsz (client, relay, relay+tmux, tunnel), addRelaySuffix, rewriteTrzszTrigger, detectZmodem, "
+            "detectDragFiles and its Linux / macOS / Windows variants, nextLinuxPath / nextWinPath / nextMsysPath / nextCygPath / "
+            "unixPathToWinPath, trimVT100, stripTmuxStatusLine, readLineOnWindows, recvLine+recvCheck (tmux / windows / junk modes), "
+            "unescapeData with short destinations, escapeTable.UnmarshalJSON, archive header and name-record parsing are called directly "
+            "under recover on every string up to length 3..7 over each scanner's own alphabet, on complete and truncated sequences with "
+            "every cut into 2 and 3 chunks, on 100000-digit runs and the 100000-byte OSC 52 overflow path, and on random strings "
+            "(1.2 million calls quick); oracle: no panic, result bounded by the input",
     "trusted": ["modelled, not verified: encoding/json, zlib, zstd, base64 and the Go runtime on malformed input (exercised by the hostile group, not proved)",
                 "goroutines without recover are a structural fact (Gen/Skel_guards.recover_sites), not a theorem",
                 "totality of the progress display for unguarded steps and sizes is C20's theorem"],
